@@ -381,6 +381,7 @@ PLAN: Dict[str, dict] = {
             S("R-NAMEPATHS", "all return paths of a wrapper keep the operands' names (no names-dropping fast path)"),
             S("R-DEFAULTS", "shared value/shape parameters have numpy's defaults (a call without them does what numpy does)"),
             S("R-DTYPEKW", "a dtype= keyword on data computed from several operands is not a single operand's dtype"),
+            G("R-CLEAN", "the guard of the numeric division functions rests on isconstant being False exactly for a non-constant term with a non-zero coefficient", only=in_funcs("isconstant")),
         ],
         "explanation": "Last sentence in full: in true_divide/floor_divide/remainder/divmod every path to the numeric ufunc or to a "
                        "normal return passed divisor.isconstant() and the other edge raises FeatureNotSupported. Every registered "
@@ -421,6 +422,7 @@ PLAN: Dict[str, dict] = {
             S("R-DEFAULTS", "shared value/shape parameters have numpy's defaults (a call without them does what numpy does)"),
             G("R-OPT-LAYERS", "__reduce__ passes one retain flag and relies on the other being resolved from the options (never used while still None)", only=msg("O12")),
             S("R-KEYCLASS", "no character-class predicate on storage keys / field names (keys are arbitrary code points)"),
+            S("R-NONE", "loadtxt restores the shape through reshape: an empty shape () is honoured, not treated as omitted", only=in_funcs("reshape")),
         ],
         "explanation": "__reduce__ returns polynomial_from_attributes with exponents/coefficients/names/dtype/allocation bound to the "
                        "right parameters; __array_finalize__ copies exactly the attribute set __new__ assigns; HEADER_REGEX is built "
@@ -511,6 +513,7 @@ PLAN: Dict[str, dict] = {
             S("R-BISECT", "no bisection on a sequence that was sorted with a key function (name / exponent look-ups are by equality)"),
             S("R-COLPERM", "re-ordered names and their exponent columns are permuted together"),
             G("R-TERMS", "todict agrees with the polynomial: every term, coefficient arrays unconverted", only=in_funcs("todict")),
+            G("R-VALUES", "decompose / todict read the storage of strided views in the right element order"),
         ],
         "explanation": "lead_exponent and lead_coefficient are the same ascending glexsort(graded, reverse) walk overwriting where "
                        "the coefficient is non-zero from a zero-initialised result; tonumpy raises FeatureNotSupported unless "
